@@ -4,7 +4,7 @@ never in /repo itself) and rewrites /verif/seeded/MATRIX.md and each meta.json's
 usage: seedmatrix.py [seed-id ...]"""
 import json, os, re, shutil, subprocess, sys, tempfile, glob
 
-WT = '/tmp/seedmatrix-wt'
+WT = os.environ.get('SEEDMATRIX_WT', '/tmp/seedmatrix-wt')
 
 def main():
     want = set(sys.argv[1:])
